@@ -238,7 +238,12 @@ def vmdk_descriptor(p):
     else:
         if p.get('ctype_first') is not None:
             # an earlier createType header with another value: the descriptor's type is not (only) an allowed one
-            lines.append('createType="%s"' % p['ctype_first'])
+            # (ctype_first_style: where that first occurrence stands - a header line of its own, inside a '#' comment line,
+            # or at the end of a comment; the image's reader, qemu's vmdk driver, takes the first createType=" anywhere
+            # in the text, and so does the pinned inspector)
+            style = p.get('ctype_first_style', 'line')
+            lines.append({'line': 'createType="%s"', 'comment': '# createType="%s"', 'comment-tail': '# converted from createType="%s" by a tool',
+                          'indented-comment': '  #createType="%s"'}[style] % p['ctype_first'])
             if p['ctype_first'].lower() not in ('monolithicsparse', 'streamoptimized') or len(p['ctype_first']) >= 64:
                 ok = False
         lines.append('createType="%s"' % ctype)
@@ -313,6 +318,20 @@ def vmdk(p):
         hdr = bytes(filler)
     region_len = min(desc_num * 512, (1 << 20) - 1)
     body = desc.ljust(min(desc_num, 4096) * 512, b'\0')
+    stale = p.get('desc_stale')
+    if stale and len(desc) + 2 < len(body) and b'\0' not in desc:
+        # the descriptor is a NUL-terminated string inside its sectors; what follows the terminator is not text: left-overs
+        # of a longer earlier descriptor (ASCII or UTF-8), or binary.  It is not part of the descriptor.
+        room = len(body) - len(desc) - 1
+        if stale == 'ascii':
+            junk = (b'RW 4192256 FLAT "/etc/passwd" 0\nddb.old = "1"\ncreateType="vmfs"\n' * (room // 60 + 1))[:room]
+        elif stale == 'utf8':
+            junk = ('ddb.comment = "r\u00e9sum\u00e9 \u2013 \u65e7"\n'.encode('utf-8') * (room // 30 + 1))[:room]
+        elif stale == 'late-utf8':
+            junk = (b'\0' * (room - 3) + '\u65e7'.encode('utf-8'))[:room] if room > 3 else b'\xff' * room
+        else:
+            junk = _rand_bytes(('vmdkstale', stale, len(desc)), room)
+        body = desc + b'\0' + junk
     img = hdr + body
     min_total = p.get('min_total', 65536)
     img = img.ljust(max(len(img), min_total), b'\0')
